@@ -63,3 +63,19 @@ Example c01_nonvacuous :
   kout (krun c init_k l) = [(1, Some 1, Some 1); (2, Some 1, Some 1); (3, Some 1, Some 1); (4, Some 2, Some 2);
                             (5, Some 2, Some 2); (6, None, None)].
 Proof. vm_compute. repeat split; discriminate. Qed.
+
+(* F17 (open): outside [run_ok] - the block holding the newest copy is reclaimed before a block holding an older one
+   (possible with the invalid-ratio picker), then a restart: recovery's winner is the older copy, [restart_ok] fails
+   and the reopened store serves the older version *)
+Theorem c01_known_F17 :
+  let c := mkCfg true true false false true false in
+  let l := [KIns LDefault; KFlush 0; KComplete; KEvict; KIns LDefault; KFlush 1; KComplete; KEvict; KReclaim 1] in
+  let s := krun c init_k l in
+  run_ok c init_k l /\ ktruth s = Some 2 /\ lookup_now s = None /\
+  ~ restart_ok c s 2 (kdisk (do_close c s 2)) /\
+  lookup_now (kstep c s (KRestart 2 (kdisk (do_close c s 2)))) = Some 1.
+Proof.
+  vm_compute. repeat split; try discriminate.
+  intros [_ [b' [H _]]]. discriminate H.
+Qed.
+Print Assumptions c01_known_F17.
